@@ -17,6 +17,14 @@ CHECKS = {
         note="Bound: <=2 binary operators x 10 contexts and <=3 in assignments (quick); <=3 x 10 contexts and 4 in assignments with two prefixed operands (thorough); one parenthesis level; literals |s|<=7/9. ^, integer division and built-ins shared by both dialects are uninterpreted (same symbol both sides); float rounding, overflow and zero-trip FOR loops are outside. Trusted: the two reference parsers in vf/tv (Color BASIC ROM precedence table, BASIC09 manual precedence), z3.",
         design="DESIGN.md §3 E3/E2/E5, §5 C01",
     ),
+    "C02": dict(
+        engine="tv",
+        category=TV,
+        technique="translation validation with SMT (z3): both symbolic machines run every path of source and emitted program over symbolic inputs; z3 decides path feasibility and equality of traces and final stores; findings reduced to minimal template lists",
+        text="Programs are assembled exhaustively from control-flow line templates (all IF forms incl. ELSE IF chains and nested IFs, FOR/NEXT with STEP, bare NEXT, NEXT lists, GOTO, GOSUB/RETURN, ON..GOTO/GOSUB, END, STOP) in sequences of up to three template lines before a fixed tail, for the four combinations of filter_unused_linenum x initialize_vars. The source runs on the Color BASIC machine, the real convert() output on the BASIC09 machine, inputs come from a symbolic INPUT script; every path pair must give the same PRINT-tag sequence, END/STOP and final stores (z3 decides), and the emitted program must stop when the source stops (repeated-state detection).",
+        note="Bound: <=3 template lines (all pairs of 50 templates and all triples of a 13-template core in quick; triples of a 28-template core in thorough), 80 steps per path, literal loop bounds with >=1 trip (zero-trip FOR loops, ON selectors out of range are reported as such, not compared). Trusted: the two reference front ends and the machine (vf/tv), z3.",
+        design="DESIGN.md §5 C02",
+    ),
     "C04": dict(
         engine="tv+symproxy",
         category=TV,
@@ -25,6 +33,22 @@ CHECKS = {
         note="Bound: one device statement per program (plus the same statement followed by other text / inside IF arms), operand shapes listed in the evidence. The reference map (vf/tv/refmap.py) is trusted data written from the Color BASIC manuals; what the procedures do with their operands is outside. Trusted: z3, the BASIC09 reader.",
         design="DESIGN.md §5 C04",
     ),
+    "C05": dict(
+        engine="tv",
+        category=TV,
+        technique="translation validation with SMT (z3): evaluation events (function, argument terms) of both symbolic machines compared in order; device results are fresh symbols per call index; temporaries checked for read-before-write per emitted line",
+        text="Every convertible function (INT VAL STR$ HEX$ INSTR STRING$ INKEY$ BUTTON JOYSTK POINT) alone, nested in each built-in / in each other (depth 2) and in ordered pairs, in ~40 statement slots including subscripts on both sides of an assignment, all IF forms and arms, FOR operands, PRINT/PRINT@ items, ON selector, device operands, jump-targeted lines and loop bodies: the Color BASIC machine records the reference evaluation order (left to right, innermost first, target subscripts before the value), the BASIC09 machine the RUN calls of the real convert() output; equal sequences with equal argument terms and equal final stores are decided by z3 (device functions return a fresh symbol per call number, so order shows in values). A temporary read on a line that did not assign it is reported.",
+        note="Bound: nesting depth 2, one statement per program (plus second-statement / jump-target / loop contexts). The procedure contract (output := function(inputs)) is assumed; the known ecb_joystk arity mismatch is executed by evident intent so that order stays observable (the mismatch itself is C14's).",
+        design="DESIGN.md §5 C05",
+    ),
+    "C06": dict(
+        engine="tv+symproxy",
+        category=TV,
+        technique="translation validation with SMT over reference-graph programs (both symbolic machines, z3 decides path feasibility / equality); label-set and refusal rules; LineNumberCheckerVisitor and the emitted 32700 dispatcher executed on symbolic numbers",
+        text="Sixteen jump-bearing statement forms (GOTO, THEN/ELSE line, nested and ELSE IF arms, ON lists, after other statements) plus GOSUB forms, with every assignment of their target slots to {self, next, forward, backward, line 0, missing}: conversion must be refused iff a target is missing; otherwise, for filter on/off x suffix on/off, the label set must be exactly the referenced lines (filter) or everything but an unreferenced line 0, statements must be unchanged by filtering, and both machines must print the tag of the line each jump names on every path. The >32699 refusal is decided for every line number by running the real checker on a z3 integer; the 32700 dispatcher is executed with a symbolic error number (break -> BRK target, everything else -> ERR target).",
+        note="Bound: one jump-bearing statement per program, five lines. Handler semantics for single-handler programs as stated in the evidence assumptions.",
+        design="DESIGN.md §5 C06",
+    ),
     "C07": dict(
         engine="tv+rxsmt",
         category=TV,
@@ -32,6 +56,14 @@ CHECKS = {
         text="Every output of the statement-coverage, device, expression-in-context, IF-arm and PRINT-list families and of the 21 bundled examples, under three option sets, must load in an independent reader of BASIC09's statement grammar (complete statements, balanced blocks, all operands present). z3 decides for every content string of the real str_literal / partial_str_lit / data_str_literal / comment_text regexes that the emitted line stays one closed physical line, and for every name the real var regex accepts that its two-character identifier is not a reserved word.",
         note="The structural part is decided per program without a solver (stated in the evidence); the solver part bounds contents to 6 and names to 4 characters. BASIC09 grammar subset = what the tool emits; reserved-word list deliberately short (DO ON PI + statement keywords). Type correctness of mixed boolean/numeric expressions is outside (by the property).",
         design="DESIGN.md §5 C07",
+    ),
+    "C10": dict(
+        engine="symproxy+tv",
+        category=TV,
+        technique="real convert() pipeline executed with z3-backed sizes (symbolic default string size and configured size, ==-comparing shadow dict); emitted declarations read back by the loader; z3 decides capacity = requested size for all sizes 1..32766",
+        text="For 45 programs that put strings and arrays in every syntactic position (assignment, only inside function arguments, READ/INPUT targets, implicit and DIMmed arrays in 1-3 dimensions, several DIM statements, temporaries of every origin, IF arms) x initialize_vars, the real pipeline runs once per feasible path with the default size s and the configured size c as z3 integers; for every string identifier in the output z3 decides that its declared capacity equals the requested one (c if DIMmed and configured, else s; no explicit size = 32) for ALL s, c in 1..32766. Arrays must be declared once, before first use, with bound+1 (11) elements per dimension; nothing may be declared twice. StringConfigs' size validation is decided the same way.",
+        note="Programs are a fixed list (positions), sizes are fully symbolic. Assumes BASIC09's default string capacity is 32.",
+        design="DESIGN.md §5 C10",
     ),
     "C14": dict(
         engine="tv",
